@@ -256,6 +256,87 @@ inline Circuit genCircuit(Rng &r, const GenOpts &o, GenInfo *info = nullptr) {
   return c;
 }
 
+// C07: degenerate shapes at a given coordinate magnitude (coordinates up to about 2^magBits, cell areas below 2^31)
+inline Circuit genShape(Rng &r, const std::string &shape, int magBits) {
+  long long top = 1LL << std::max(6, magBits);
+  long long H = std::max<long long>(1, std::min<long long>(top / 64, 1LL << 12));
+  int nRows = shape == "singleRow" ? 1 : shape == "manyRows" ? (int)r.in(20, 40) : (int)r.in(2, 8);
+  long long W = std::max<long long>(8 * H, top / 2);
+  long long ox = r.chance(0.5) ? top - W - 1 : -top + 1;       // rows pushed against the magnitude limit
+  long long oy = r.chance(0.5) ? top - nRows * H - 1 : -top + 1;
+  if (magBits == 0) {
+    ox = r.in(-20, 20);
+    oy = r.in(-10, 10);
+    W = r.in(8, 64);
+    H = r.in(1, 4);
+  }
+  std::vector<Row> rows;
+  for (int k = 0; k < nRows; ++k) {
+    CellOrientation ro = (k % 2) ? CellOrientation::FS : CellOrientation::N;
+    if (shape == "splitRows" && W >= 16 * H) {
+      long long cut = ox + W / 2 - H + r.in(0, H);
+      rows.emplace_back((int)ox, (int)cut, (int)(oy + k * H), (int)(oy + (k + 1) * H), ro);
+      rows.emplace_back((int)(cut + r.in(0, 2 * H)), (int)(ox + W), (int)(oy + k * H), (int)(oy + (k + 1) * H), ro);
+    } else {
+      rows.emplace_back((int)ox, (int)(ox + W), (int)(oy + k * H), (int)(oy + (k + 1) * H), ro);
+    }
+  }
+  long long maxW = std::min<long long>(W, ((1LL << 31) - 1) / (H * 6));   // area below 2^31 even for 6-row macros
+  int nMov = shape == "singleCell" ? 1 : shape == "allFixedButOne" ? 1 : (int)r.in(2, 30);
+  int nFix = shape == "zeroSizeTerminals" ? (int)r.in(2, 8) : shape == "allFixedButOne" ? (int)r.in(3, 12) : (int)r.in(0, 3);
+  double util = shape == "infeasibleDensity" ? r.real(1.1, 2.0) : r.real(0.1, 0.9);
+  long long avgW = std::max<long long>(1, (long long)(util * (double)W * nRows / nMov));
+  int n = nMov + nFix;
+  std::vector<int> w(n), h(n), x(n), y(n);
+  std::vector<bool> fixed(n, false), obs(n, true);
+  for (int i = 0; i < n; ++i) {
+    if (i >= nMov) {
+      fixed[i] = true;
+      if (shape == "zeroSizeTerminals") {
+        w[i] = h[i] = 0;
+      } else {
+        w[i] = (int)std::min<long long>(maxW, std::max<long long>(1, r.in(1, 4) * H));
+        h[i] = (int)(r.in(1, 3) * H);
+      }
+      x[i] = (int)(ox + r.in(-2 * H, W));
+      y[i] = (int)(oy + r.in(-2, nRows) * H);
+      obs[i] = r.chance(0.7);
+      continue;
+    }
+    long long ww = std::max<long long>(1, (long long)(avgW * r.real(0.3, 1.7)));
+    if (shape == "wideCells" && r.chance(0.3)) ww = W - r.in(0, 2);
+    ww = std::min(ww, maxW);
+    int rowsHigh = (shape == "macros" && nRows >= 2 && r.chance(0.4)) ? (int)r.in(2, std::min(6, nRows)) : 1;
+    w[i] = (int)ww;
+    h[i] = (int)(rowsHigh * H);
+    x[i] = (int)(r.chance(0.1) ? (r.chance(0.5) ? -top + 1 : top - ww) : ox + r.in(0, W));
+    y[i] = (int)(r.chance(0.1) ? (r.chance(0.5) ? -top + 1 : top - h[i]) : oy + r.in(0, nRows) * H);
+  }
+  Circuit c(n);
+  c.setCellWidth(w);
+  c.setCellHeight(h);
+  c.setCellX(x);
+  c.setCellY(y);
+  c.setCellIsFixed(fixed);
+  c.setCellIsObstruction(obs);
+  c.setRows(rows);
+  if (shape != "noNets") {
+    int nNets = (int)r.in(1, 2 * n);
+    for (int k = 0; k < nNets; ++k) {
+      int deg = shape == "degree1Nets" ? 1 : (int)r.in(2, 6);
+      std::vector<int> cells, dx, dy;
+      for (int j = 0; j < deg; ++j) {
+        int cell = shape == "allPinsOneCell" ? 0 : (int)r.in(0, n - 1);
+        cells.push_back(cell);
+        dx.push_back((int)r.in(0, std::max(0, w[cell])));
+        dy.push_back((int)r.in(0, std::max(0, h[cell])));
+      }
+      c.addNet(cells, dx, dy, (float)r.pick(std::vector<double>{1.0, 1.0, 0.5, 2.0}));
+    }
+  }
+  return c;
+}
+
 struct ParamOpts {
   bool defaultsOnly = false;
   bool reorder = true;       // allow reorderingMaxNbCells >= 2
